@@ -7,7 +7,7 @@ mkdir -p $snap; rsync -a --delete /verif/harness/ $snap/
 export VERIF_HARNESS=$snap
 for pid in "$@"; do
   for n in 1 2; do
-    d=/tmp/mut/$pid-out
+    d=${MUTDIR:-/tmp/mut}/$pid-out
     [ -f $d/m$n.diff ] || continue
     demo=$d/m${n}_demo_test.go
     dir=url; grep -q "^package canonicalizer" $demo && dir=canonicalizer
